@@ -202,8 +202,12 @@ fn case_generic<F: Fl>(c: &Case, obs: &mut Obs) -> PResult {
             }
             (lo, hi, a.len().max(b_full.len()).max(2) as f64)
         };
-        if emin != i32::MAX {
-            let (max_exp, min_exp): (i32, i32) = if F::IS32 { (127, -126) } else { (1023, -1022) };
+        let (max_exp, min_exp): (i32, i32) = if F::IS32 { (127, -126) } else { (1023, -1022) };
+        // the base data themselves must be clear of underflow (squares and their compensation terms normal),
+        // otherwise the base interval has already lost what the scaled one keeps
+        if emin != i32::MAX && 2 * emin < min_exp + 60 {
+            obs.exclude("scaling to the edges: the squares of the base data are already near or below the normal range");
+        } else if emin != i32::MAX {
             let e_hi = ((max_exp - 8) as f64 - n_all.log2()).div_euclid(2.0) as i32 - emax;
             let e_lo: i32 = (min_exp + 8).div_euclid(2) - emin + 30;
             let wide_ok = |var: f64, n: usize, e: i32| -> bool {
